@@ -511,6 +511,16 @@ def gen_c(b, blocks, path):
     byname = {x.name: x for x in blocks if x.kind == 'function' and x.mode == b.mode}
     if b.kind == 'function':
         byname[b.fn] = b          # the variant under proof supplies the clauses of its own function
+    # `replace f#variant`: calls of f are replaced by the contract of the block named f#variant
+    rep_names = []
+    for r_ in b.replace:
+        if '#' in r_:
+            if r_ not in byname:
+                raise Undecided('contract block %s names the unknown variant %s' % (b.name, r_))
+            byname[r_.split('#')[0]] = byname[r_]
+            rep_names.append(r_.split('#')[0])
+        else:
+            rep_names.append(r_)
     roots = []
     if b.kind == 'function':
         if b.fn not in u.fn_by_cname:
@@ -547,7 +557,7 @@ def gen_c(b, blocks, path):
         need.append(fi)
         for c in sorted(getattr(fi, 'calls', None) or []):
             todo.append(c)
-    b.replace_eff = [r for r in b.replace if r in seen and r != b.fn]
+    b.replace_eff = [r for r in rep_names if r in seen and r != b.fn]
     order = [fi for fi in u.order if fi in need]
     for fi in need:
         if fi not in order:
@@ -1078,11 +1088,11 @@ def _run_block(r, blocks, keep=False, verbose=False):
     base, cfile, hname, linemap = r.base, r.cfile, r.hname, r.linemap
     tmo = b.timeout or TIMEOUT
     defs = ['-D' + d for d in getattr(b, 'defines', [])]
-    rc, out, err, dt = sh(['goto-cc', '--function', hname, '-DBS_CANARY()='] + defs + (['-DBS_CAP=%dUL' % getattr(b, 'cap', 8)] if b.bounded else []) +
-                          ['-o', base + '.a.gb', cfile], 120)
-    if rc != 0:
-        r.reason = 'goto-cc failed: ' + (err or out)[-1500:]
-        return r
+    if not b.bounded:
+        rc, out, err, dt = sh(['goto-cc', '--function', hname, '-DBS_CANARY()='] + defs + ['-o', base + '.a.gb', cfile], 120)
+        if rc != 0:
+            r.reason = 'goto-cc failed: ' + (err or out)[-1500:]
+            return r
     cmd = ['goto-instrument', '--dfcc', hname]
     if b.kind == 'function' and not b.noharness:
         cmd += ['--enforce-contract-rec' if getattr(b, 'recursive', False) else '--enforce-contract', b.fn]
@@ -1094,17 +1104,21 @@ def _run_block(r, blocks, keep=False, verbose=False):
     for shim in SHIM_CONTRACTS + sorted(set(re.findall(r'\b(vec_\w+_eq)\(', body_text))) + abstract_fns:
         if re.search(r'\b%s\(' % shim, body_text):
             cmd += ['--replace-call-with-contract', shim]
-    try:
-        src_gb, loop_flags = prepare_loops(base + '.a.gb', base + '.u.gb', ctext, cfile, b)
-    except Undecided as e:
-        r.reason = str(e)
-        return r
-    r.loop_flags = loop_flags
-    cmd += loop_flags + [src_gb, base + '.b.gb']
-    rc, out, err, dt = sh(cmd, 300)
-    if rc != 0:
-        r.reason = 'goto-instrument failed: ' + (err + out)[-1500:]
-        return r
+    if b.bounded:
+        # a bounded stand-in is examined in the small instance only: the unbounded program is not built
+        cmd += [base + '.a.gb', base + '.b.gb']
+    else:
+        try:
+            src_gb, loop_flags = prepare_loops(base + '.a.gb', base + '.u.gb', ctext, cfile, b)
+        except Undecided as e:
+            r.reason = str(e)
+            return r
+        r.loop_flags = loop_flags
+        cmd += loop_flags + [src_gb, base + '.b.gb']
+        rc, out, err, dt = sh(cmd, 300)
+        if rc != 0:
+            r.reason = 'goto-instrument failed: ' + (err + out)[-1500:]
+            return r
     if b.bounded:
         # bounded stand-in (never counted as proved): only the small instance is examined -- every vector capped at 8
         # elements, loops unwound completely, ghost relations defined from the contents, no quantifier left
@@ -1128,6 +1142,31 @@ def _run_block(r, blocks, keep=False, verbose=False):
         else:
             r.status, r.reason = 'bounded', 'bounded stand-in passed: ' + b.bounded
         r.canary = 'n/a (bounded stand-in)'
+        if r.status == 'bounded':
+            # vacuity guard for the bounded instance as well: the end of the harness must be reachable
+            cap = getattr(b, 'cap', 8)
+            rc1, o1, e1, d1 = sh(['goto-cc', '--function', hname,
+                                  '-DBS_CANARY()=__CPROVER_assert(0, "[canary] end of harness reachable")',
+                                  '-DBS_SMALLGRID=1', '-DBS_CAP=%dUL' % cap] + defs + ['-o', base + '.c.gb', cfile], 120)
+            ccmd = [x for x in cmd if x != '--apply-loop-contracts'][:-2] + [base + '.c.gb', base + '.d.gb']
+            rc2, o2, e2, d2 = sh(ccmd, 300)
+            if rc1 != 0 or rc2 != 0:
+                r.status, r.reason = 'undecided', 'canary build failed: ' + (e2 or e1 or '')[-300:]
+            else:
+                n_assert = sum(x.count('__CPROVER_assert(') for x in (b.body + b.post)) + 1
+                cun = small_unwind_args(base + '.d.gb', cfile, cap) if cap < 8 else ['--unwind', str(max(10, cap + 2))]
+                co = portfolio(base + '.d.gb', b.solvers or SOLVERS, cun + ['--object-bits', '16', '--property', '%s.assertion.%d' % (hname, n_assert)], tmo)
+                cd = [x for x in co if x['status'] == 'done' and any('[canary]' in (p.get('description') or '') for p in x['results'])]
+                if cd and any(p.get('status') == 'FAILURE' for p in cd[0]['results']):
+                    r.canary = 'reachable'
+                elif any(x['status'] == 'abort-sat' for x in co):
+                    r.canary = 'reachable(abort)'
+                elif cd and all(p.get('status') == 'SUCCESS' for p in cd[0]['results']):
+                    r.canary = 'UNREACHABLE'
+                    r.status, r.reason = 'undecided', 'vacuous: the end of the harness is unreachable in the bounded instance (contradictory assumptions?)'
+                else:
+                    r.canary = 'unknown'
+                    r.status, r.reason = 'undecided', 'canary undecided in the bounded instance'
         r.time = time.time() - t0
         return r
     results, how = decide(base + '.b.gb', b, tmo)
@@ -1259,6 +1298,11 @@ ASSUMPTIONS_COMMON = [
 ]
 
 
+# C12: the statement itself is decided in a bounded instance only (bounded_standins), the proofs cover interpolate's
+# bookkeeping: neither 'proof' nor exhaustive model checking -- level 'other', with the explanation in the evidence
+EVIDENCE_LEVEL = {'C12': 'other'}
+
+
 def load_known():
     out = []
     p = os.path.join(ROOT, 'known_findings.txt')
@@ -1347,7 +1391,7 @@ def check_property(pid, tier, blocks, verbose=True):
         rc = 2
     ev = {
         'property_id': pid, 'tier': tier, 'seed': int(os.environ.get('VERIF_SEED', '0') or 0),
-        'level': 'proof',
+        'level': EVIDENCE_LEVEL.get(pid, 'proof'),
         'coverage': {
             'obligations': n_obl, 'discharged': n_dis,
             'checker_cmd': 'goto-cc --function h_<f>; goto-instrument --dfcc h_<f> --enforce-contract <f> [--replace-call-with-contract g..] --apply-loop-contracts; cbmc --cvc5|--z3 ' + ' '.join(CBMC_FLAGS),
@@ -1367,7 +1411,10 @@ def check_property(pid, tier, blocks, verbose=True):
             'known_findings': [{'obligation': o['id'], 'what': what} for r, o, what in knowns],
             'obligations_failing_as_known_findings': len(knowns),
             'repo_include_hash': repo_hash(),
-            'explanation': 'every listed obligation is generated by goto-instrument/cbmc from C that bs2c extracts on this run from the instantiated bodies in %s; proof-level means all of them were discharged, for all inputs and all loop iterations, under the stated assumptions' % REPO,
+            'explanation': ('C12: the conditions of the statement (ordinates reproduced, derivatives continuous, boundary conditions met) are '
+                            'checked in BOUNDED instances only, listed under bounded_standins with their bound; obligations/discharged count the '
+                            'unbounded proofs about interpolate\'s own bookkeeping (validation, system writes in bounds, solution copied block by '
+                            'block, default boundary set). ' if pid == 'C12' else '') + 'every listed obligation is generated by goto-instrument/cbmc from C that bs2c extracts on this run from the instantiated bodies in %s; proof-level means all of them were discharged, for all inputs and all loop iterations, under the stated assumptions' % REPO,
         },
         'assumptions': ASSUMPTIONS_COMMON + sorted({a for r in res for a in getattr(r.block, 'assumes', [])}),
         'wall_s': round(time.time() - t0, 1),
